@@ -19,7 +19,7 @@ def run(cmd, cwd=None, timeout=1800):
 try:
     # demo test files: the copies delivered in the SEEDED dir, placed by their package clause
     PKGDIR = {"tests": "tests", "fri": "fri", "plonk": "plonk", "gates": "plonk/gates", "goldilocks": "goldilocks", "poseidon": "poseidon",
-              "challenger": "challenger", "verifier": "verifier", "types": "types", "variables": "variables", "cmd": "cmd"}
+              "challenger": "challenger", "verifier": "verifier", "types": "types", "variables": "variables", "cmd": "cmd", "seeded_demo": "seeded_demo"}
     demos = []
     for f in sorted(glob.glob(os.path.join(sd, "*_test.go"))):
         pkg = "tests"
@@ -28,6 +28,7 @@ try:
                 pkg = line.split()[1].replace("_test", "")
                 break
         rel = os.path.join("gnark-plonky2-verifier", PKGDIR.get(pkg, "tests"), os.path.basename(f))
+        os.makedirs(os.path.dirname(os.path.join(wt, rel)), exist_ok=True)
         shutil.copy(f, os.path.join(wt, rel))
         demos.append(rel)
     agent_demo_src = {d: os.path.join(sd, os.path.basename(d)) for d in demos}
